@@ -1,15 +1,162 @@
 import ThriftVerif.Lib.PegLemmas
-import ThriftVerif.Lib.Walker
+import ThriftVerif.Lib.WalkerLemmas
 import ThriftVerif.Generated.C03Grammar
 /-
-  C03 — the parser is total and the AST is faithful to the source text.  Property theorems only.
+  C03 — the parser is total and the AST is faithful to the source text.  Property theorems only
+  (helper lemmas: Lib/PegLemmas.lean, Lib/WalkerLemmas.lean).  `G`, `ids` are regenerated from parser/thrift.peg.
 -/
 namespace Props.C03
 open Peg Walker
 
+abbrev G := Generated.C03.grammar
+abbrev ids := Generated.C03.ids
+
+/-- ASCII text as runes, for the witnesses below -/
+def txt (s : String) : List Nat := s.toList.map Char.toNat
+
+/-! ## the generated parser terminates -/
+
 /-- The grammar regenerated from parser/thrift.peg has no left recursion (the rank table strictly decreases along
 every call in head position), no `*`/`+` over an expression that can succeed on the empty string, calls only
 existing rules, and the nullable table is closed. -/
-theorem grammar_wf : wf Generated.C03.grammar Generated.C03.nul Generated.C03.rank = true := by decide
+theorem grammar_wf : wf G Generated.C03.nul Generated.C03.rank = true := by decide
+
+/-- For every well-formed grammar and every input, the matcher stops with `ok` or `fail`: the fuel
+`(|input|+1)·(rules+2)·(maxsize+2)+1` is never exhausted. -/
+theorem peg_total (g : Grammar) (nul : List Bool) (rank : List Nat) (h : wf g nul rank = true) (rs : List Nat) :
+    parseRunes g rs ≠ .oof :=
+  parseRunes_no_oof (wf_unpack h) rs
+
+/-- `p.Parse()` of the regenerated grammar terminates on every byte string. -/
+theorem parse_total (content : Bytes) : parseRunes G (Utf8.decode content) ≠ .oof :=
+  peg_total G _ _ grammar_wf _
+
+/-! ## numbering -/
+
+/-- Field numbering, for every sibling chain of a struct / union / exception / argument list / throws list:
+if the loop succeeds, the Field nodes parsed in order are `fs`, and the ids of the result follow the rule
+"written ids as written, otherwise previous + 1, the first 1" (`numberSpec`, int32 arithmetic), everything but
+the id is untouched.  `written f = none` iff the FieldId text parsed to -999999 or there was no FieldId
+(`NOTSET` is the code's sentinel; see the witness below). -/
+theorem field_ids (buf : Array Nat) (fuel : Nat) (post : Field → Field) (t : T) (r : List Field)
+    (h : fieldsLoop ids buf fuel post [] t = .ok r) :
+    ∃ fs, collectFields ids buf fuel t = .ok fs ∧
+      r.map (·.id) = numberSpec none ((fs.map post).map written) ∧
+      r.map (fun x => { x with id := 0 }) = (fs.map post).map (fun x => { x with id := 0 }) := by
+  rw [fieldsLoop_eq] at h
+  cases hc : collectFields ids buf fuel t with
+  | ok fs =>
+    rw [hc] at h
+    simp only [W.ok.injEq] at h
+    subst h
+    refine ⟨fs, rfl, ?_, ?_⟩
+    · have := foldl_addField_ids (fs.map post) []
+      simpa using this
+    · have := foldl_addField_rest (fs.map post) []
+      simpa using this
+  | err => rw [hc] at h; cases h
+  | panic => rw [hc] at h; cases h
+  | crash => rw [hc] at h; cases h
+
+example : numberSpec none [none, none, some 7, none, some 3, none] = [1, 2, 7, 8, 3, 4] := by decide
+
+/-- A field id written as a decimal numeral (optionally signed) that fits int32 is read as written
+(`strconv.ParseInt(text, 10, 32)` as parseField calls it). -/
+theorem field_ids_written (ds : List Nat) (hne : ds ≠ []) (hd : digitsOK ds) :
+    (decVal ds < 2 ^ 31 → GoStrconv.parseInt (ds.map (· + 48)) 10 32 = ((decVal ds : Int), false)) ∧
+    (decVal ds < 2 ^ 31 → GoStrconv.parseInt (43 :: ds.map (· + 48)) 10 32 = ((decVal ds : Int), false)) ∧
+    (decVal ds ≤ 2 ^ 31 → GoStrconv.parseInt (45 :: ds.map (· + 48)) 10 32 = (-(decVal ds : Int), false)) :=
+  ⟨parseInt_decimal ds hne hd,
+   fun h => by simpa using parseInt_decimal_signed false ds hne hd (by simpa using h),
+   fun h => by simpa using parseInt_decimal_signed true ds hne hd (by simpa using h)⟩
+
+example : digitsOK [4, 2] ∧ decVal [4, 2] = 42 := by decide
+
+/- FALSE on the code (and on the model): ids written in another spelling, or outside int32, are *not* read as
+written — the error of ParseInt is dropped.  Witnesses ("fieldid-nondecimal", "fieldid-range", NOTSET): -/
+example : GoStrconv.parseInt (txt "0x10") 10 32 = (0, true) := by decide
+example : GoStrconv.parseInt (txt "0o17") 10 32 = (0, true) := by decide
+example : GoStrconv.parseInt (txt "99999999999") 10 32 = (2147483647, true) := by decide
+example : GoStrconv.parseInt (txt "-99999999999") 10 32 = (-2147483648, true) := by decide
+example : written { emptyField with id := (GoStrconv.parseInt (txt "-999999") 10 32).1 } = none := by decide
+
+/-- Enum numbering: folding the loop's step over the members gives "written values as written, otherwise
+previous + 1 (int64 arithmetic), the first 0". -/
+theorem enum_values (ws : List (Bytes × Option Int)) :
+    (ws.foldl (fun a w => enumStep a w.1 w.2) []).map (·.value) = enumSpec none (ws.map (·.2)) := by
+  simpa using foldl_enumStep_values ws []
+
+example : enumSpec none [none, none, some 10, none, some 1, none] = [0, 1, 10, 11, 1, 2] := by decide
+
+/- Enum values are read with `ParseInt(text, 0, 64)` and the error is dropped: `08` is 0, `010` is 8. -/
+example : GoStrconv.parseInt (txt "08") 0 64 = (0, true) := by decide
+example : GoStrconv.parseInt (txt "010") 0 64 = (8, false) := by decide
+example : GoStrconv.parseInt (txt "0x1F") 0 64 = (31, false) := by decide
+example : GoStrconv.parseInt (txt "0o17") 0 64 = (15, false) := by decide
+
+/-! ## annotations -/
+
+/-- `Get k` after appending the written `(key, value)` pairs in order is the list of values written with key `k`,
+in source order. -/
+theorem annotations_append (kvs : List (Bytes × Bytes)) (k : Bytes) :
+    annGet (annFold [] kvs) k = (kvs.filter (fun kv => kv.1 = k)).map (·.2) := by
+  simpa [annGet] using annGet_annFold kvs [] k
+
+/-- Keys appear once each, in the order of their first occurrence. -/
+theorem annotations_keys_first_occurrence (kvs : List (Bytes × Bytes)) :
+    keysOf (annFold [] kvs) = (kvs.map (·.1)).foldl addKey [] ∧ (keysOf (annFold [] kvs)).Nodup := by
+  have h := keysOf_annFold kvs []
+  simp only [keysOf, List.map_nil] at h
+  refine ⟨by simpa [keysOf] using h, ?_⟩
+  simp only [keysOf]
+  rw [h]
+  exact foldl_addKey_nodup _ [] List.nodup_nil
+
+/-! ## literals -/
+
+/-- For `q ∈ {', "}` and every content `s` that has no backslash immediately before a quote `q` or before another
+backslash and does not end in a backslash, the copy loop of `pegText` applied to the spelling `esc q s`
+(a backslash before every `q`) gives back `s`. -/
+theorem literal_unescape (q : Nat) (hq : q = 34 ∨ q = 39) (s : List Nat) (hs : Plain q s) :
+    unescLoop q (esc q s) = s :=
+  unescLoop_esc q (by cases hq <;> omega) s hs
+
+example : Plain 34 (txt "a'b\"c\\td") := by decide
+
+/- Exactly the excluded shapes misbehave (spelling → what the loop returns): -/
+-- content `\"` spelled `\\"`: the loop keeps both backslashes
+example : unescLoop 34 (esc 34 (txt "\\\"")) = txt "\\\\\"" := by decide
+-- content ending in `\\` : the final character is copied twice
+example : unescLoop 34 (txt "a\\\\") = txt "a\\\\\\" := by decide
+
+/-! ## witnesses on the whole pipeline (decode → match → prune → walk) for the spellings the theorems exclude -/
+
+def dblTexts (o : C03.Outcome) : List Bytes :=
+  match o with
+  | .ok t => t.constants.map (fun c => match c.value with | .dbl s => s | _ => [0])
+  | _ => [[1]]
+
+def structFieldSummary (o : C03.Outcome) : List (Int × Bytes × Nat × Bytes) :=
+  match o with
+  | .ok t => (t.structs.map (fun s => s.fields.map (fun f => (f.id, f.name, f.req,
+      match f.ty with | .mk n _ _ _ _ => n | .none => [])))).flatten
+  | _ => [(0, [1], 0, [])]
+
+/- "double-exponent": the text handed to ParseFloat for `1e5` is "5" (pegText returns the innermost PegText,
+the exponent's IntConstant); `1.5` is unaffected. -/
+set_option maxRecDepth 100000 in
+example : dblTexts (C03.parseString G ids (txt "const double d = 1e5")) = [txt "5"] := by decide
+set_option maxRecDepth 100000 in
+example : dblTexts (C03.parseString G ids (txt "const double d = 1.5")) = [txt "1.5"] := by decide
+
+/- "fieldid-nondecimal": `0x10:` is id 0 and the next unnumbered field is 1. -/
+set_option maxRecDepth 100000 in
+example : structFieldSummary (C03.parseString G ids (txt "struct S { 0x10: i32 a; i32 b }")) =
+    [(0, txt "a", 0, txt "i32"), (1, txt "b", 0, txt "i32")] := by decide
+
+/- "fieldreq-prefix": FieldReq has no `!LetterOrDigit` guard, a type named `requiredness` is split. -/
+set_option maxRecDepth 100000 in
+example : structFieldSummary (C03.parseString G ids (txt "struct S { 1: requiredness x }")) =
+    [(1, txt "x", 1, txt "ness")] := by decide
 
 end Props.C03
